@@ -25,7 +25,7 @@ from c11 import HAND_SCHEMA
 
 PROP = "C03"
 PROP_FILE = "C03_Typecheck"
-THEOREMS = ['c03_sound_partial', 'c03_impossible_partial', 'c03_policy_sound_partial']
+THEOREMS = ['c03_sound_partial', 'c03_impossible_partial', 'c03_policy_sound_partial', 'c03_store_ok_from_checker']
 
 MANIFEST = {
     "text": "Executable Gallina typechecker `tc` transcribed arm by arm from validator/typecheck.rs (+ subtype / lub / "
@@ -34,6 +34,19 @@ MANIFEST = {
             "per request environment, plus an implementation-level soundness oracle: every strict-accepted policy is evaluated "
             "by the implementation on >= 20 conformant (request, store) pairs accepted by its own validation.",
     "technique": "proof (Coq) + correspondence by differential execution + implementation-level soundness oracle (validate, then evaluate)",
+}
+
+# the constructors inside TypecheckProofs3.in_fragment (kept in sync by hand with coq/proofs/TypecheckProofs3.v)
+PROVED_FRAGMENT = {
+    "predicate": "TypecheckProofs3.in_fragment (syntactic)",
+    "inside": ["Lit (all literals)", "Var (principal, action, resource, context)", "And", "Or (capabilities on both sides)",
+               "UnApp Not", "UnApp Neg", "BinApp Eq", "BinApp Add", "BinApp Sub", "BinApp Mul",
+               "If c x y (x, y boolean-rooted: And/Or/Not/Eq/HasAttr/bool literal)",
+               "HasAttr p a / GetAttr p a with p an access path (Var followed by GetAttr), records and entities, "
+               "required and optional (capability-guarded) attributes", "Like", "Is"],
+    "outside": ["Slot", "Unknown", "If with non-boolean-rooted branches", "UnApp IsEmpty", "BinApp Less/LessEq/In/Contains/"
+                "ContainsAll/ContainsAny/GetTag/HasTag", "ExtCall", "GetAttr/HasAttr on non-path expressions", "SetE", "RecordE"],
+    "theorems_for_both_modes": True,
 }
 
 ALLOWED_ERRORS = {"EntityDoesNotExist", "IntegerOverflow", "FailedExtensionFunctionExecution"}
@@ -380,6 +393,15 @@ def model_env_class(s):
     return None, (str(s), None)
 
 
+def model_tree(s):
+    """(kind ty (children)) from the model -> the node shape pair_up expects ({"k","c"} + canonical type "t")"""
+    if not isinstance(s, list):
+        return {"k": "skipped", "c": [], "t": None}
+    t = s[1]
+    return {"k": str(s[0]), "t": None if (isinstance(t, str) and str(t) == "none") else canon_ty(t),
+            "c": [model_tree(x) for x in s[2]]}
+
+
 def correspondence(rep, driver, cases, tcds, stats, first_cmds):
     """cases[i] typechecked by Rust in mode tcds[i][mode]; one model command per (policy, mode, request env)"""
     mcmds, meta = [], []
@@ -414,6 +436,19 @@ def correspondence(rep, driver, cases, tcds, stats, first_cmds):
             stats["corr_bad_literal"] += 1
             continue
         rcls = rust_env_class(e)
+        # the annotated tree: the type of every sub-expression the typechecker visits
+        if rcls == mcls and rcls[0] != "fail" and e["typed"] is not None and len(mr) > 3:
+            pairs = []
+            if pair_up(e["typed"], model_tree(mr[3]), pairs):
+                for typed, node in pairs:
+                    if typed["t"] is None or node["t"] is None:
+                        continue
+                    stats["corr_nodes"] += 1
+                    if canon_ty(texpr.ty_sx(typed["t"])) != node["t"]:
+                        mcls = (mcls[0], ("sub-expression %s" % node["k"], node["t"], canon_ty(texpr.ty_sx(typed["t"]))))
+                        break
+            else:
+                mcls = (mcls[0], "annotated trees have different short-circuit shapes")
         stats["corr_compared"] += 1
         stats["corr_classes"][mode + "/" + rcls[0]] = stats["corr_classes"].get(mode + "/" + rcls[0], 0) + 1
         if rcls != mcls:
@@ -424,7 +459,7 @@ def correspondence(rep, driver, cases, tcds, stats, first_cmds):
                                "rust_entry_point": "Typechecker::typecheck_by_request_env",
                                "mode": mode, "schema": c.sg.js, "policy": c.text, "env": e["env"],
                                "rust": {"result": e["result"], "errors": e["errors"], "root_type": (e["typed"] or {}).get("t")},
-                               "model": repr(mr), "model_cmd": sx_dump(mc),
+                               "model": repr(mr)[:3000], "difference": repr(mcls), "model_cmd": sx_dump(mc),
                                "theorem_transfer_lost": "c03_sound_partial / c03_impossible / c03_strict_in_permissive for this policy"},
                               no_failing_input=True)
 
@@ -454,17 +489,20 @@ def run_batch(rep, harness, cases, stats, samples, driver=None, first_cmds=None)
 def new_stats():
     return {"policies": 0, "strict_accepted": 0, "impossible": 0, "evaluations": 0, "data_rejected": 0, "verdicts": {},
             "error_kinds": {}, "outcomes": {}, "traces_paired": 0, "traces_unpaired": 0, "env_unmatched": 0,
-            "subexpr_checked": 0, "corr_compared": 0, "corr_mismatch": 0, "corr_unmodelled": 0, "corr_bad_literal": 0,
+            "subexpr_checked": 0, "corr_compared": 0, "corr_nodes": 0, "corr_mismatch": 0, "corr_unmodelled": 0, "corr_bad_literal": 0,
             "corr_classes": {}}
 
 
 def run(rep, tier, seed):
+    import resource
+    cpu0 = resource.getrusage(resource.RUSAGE_CHILDREN)
+    cpu_self0 = resource.getrusage(resource.RUSAGE_SELF)
     ob, dis, details, failures = fw.check_props(PROP_FILE, THEOREMS) if THEOREMS else (0, 0, {}, [])
     harness = fw.build_harness()
     driver = fw.build_model_driver()
     first_cmds = []
     rng = random.Random(seed)
-    nschemas, npol = (16, 40) if tier == "quick" else (160, 80)
+    nschemas, npol = (12, 40) if tier == "quick" else (160, 80)   # quick sized by CPU time (see notes/C03.md)
     stats = new_stats()
     samples, distinct, feats = [], set(), {}
     cases = hand_cases(rng)
@@ -485,10 +523,14 @@ def run(rep, tier, seed):
     nx = fw.coq_crosscheck([x for x, _ in first_cmds], [y for _, y in first_cmds], PROP)
     for f in failures:
         rep.violation({"property": PROP, "kind": "proof obligation no longer checks", "detail": f}, no_failing_input=True)
+    cpu1 = resource.getrusage(resource.RUSAGE_CHILDREN)
+    cpu_self1 = resource.getrusage(resource.RUSAGE_SELF)
     rep.coverage = {
         "obligations": ob, "discharged": dis,
         "checker_cmd": "make -C coq props/%s.vo (coqc 8.16.1) + Print Assumptions" % PROP_FILE,
         "trusted_base": fw.TRUSTED_BASE, "theorems": details,
+        "cpu_seconds_children(harness+model+coqc+cargo)": round(cpu1.ru_utime + cpu1.ru_stime - cpu0.ru_utime - cpu0.ru_stime, 1),
+        "cpu_seconds_python": round(cpu_self1.ru_utime + cpu_self1.ru_stime - cpu_self0.ru_utime - cpu_self0.ru_stime, 1),
         "evaluations": stats["evaluations"], "distinct_nontrivial": len(distinct),
         "rule": "%d random schemas + 1 hand schema; per schema %d policies from the type-directed generator vp/tgen.py (0.7 well-typed "
                 "with optional attributes/tags behind documented guards, else one typing fault of %d kinds), each strict-accepted "
@@ -503,7 +545,9 @@ def run(rep, tier, seed):
         "traces_paired_with_typed_expr": stats["traces_paired"], "traces_not_paired": stats["traces_unpaired"],
         "request_env_not_matched": stats["env_unmatched"],
         "construct_histogram": feats,
-        "correspondence_envs_compared": stats["corr_compared"], "correspondence_mismatches": stats["corr_mismatch"],
+        "proved_fragment": PROVED_FRAGMENT,
+        "correspondence_envs_compared": stats["corr_compared"],
+        "correspondence_subexpression_types_compared": stats["corr_nodes"], "correspondence_mismatches": stats["corr_mismatch"],
         "correspondence_filtered_unmodelled": stats["corr_unmodelled"],
         "correspondence_filtered_undeclared_literal": stats["corr_bad_literal"],
         "correspondence_result_classes": stats["corr_classes"], "vm_compute_crosscheck_cases": nx,
